@@ -170,6 +170,25 @@ def check(run):
     run.note("attach_sites_outside_engine", n_attach)
     run.floor("R3-pairing", 14)
 
+    # ------------------------------------------------------------------ R8 fresh nodes: a memoised function on the decoder path
+    # hands the same Node objects to two parents (one parent pointer, two child lists; iteration yields them twice)
+    from ..effects import CACHE_DECORATORS
+    from ..model import call_graph, reachable
+    edges_ = call_graph(prog, registry_targets=prog.decorated_decoders() + [prog.fn("keyword.find_keywords")])
+    onpath = reachable(edges_, [prog.fn("multidecoder.Multidecoder.scan")])
+    n_fresh = 0
+    for fi in sorted(onpath, key=lambda f: f.fq):
+        if isinstance(fi.node, ast.Lambda):
+            continue
+        memo = [d for d in fi.decorators if prog.dotted(fi.module, d.func if isinstance(d, ast.Call) else d) in CACHE_DECORATORS]
+        n_fresh += 1
+        if memo or fi in prog.decorated_decoders():
+            run.ob("R8-fresh-nodes", f"{fi.fq}/not-memoised", not memo, f"{fi.module.rel}:{fi.lineno}",
+                   "a function on the scan path builds its nodes afresh on every call (no memoising decorator), so no node is listed under two parents",
+                   f"decorated with @{norm_src(memo[0])}: the cached Node objects are returned again for the same argument" if memo else "", mech="decorator census over the scan path")
+    run.note("functions_on_scan_path", n_fresh)
+    run.floor("R8-fresh-nodes", 25)
+
     # ------------------------------------------------------------------ R4 pre-order
     noderules.check_iter_preorder(run, "R4-preorder")
     # ------------------------------------------------------------------ R7 original
